@@ -11,7 +11,16 @@ Tie     : extracted facts (recursive load call sites forwarding `classes`, `_slo
           that C20 is stated on).
 Monitor : from the property statement: load(dump(obj)) has the same class and equal fields up to container
           normalisation — directly, and through a real ServerProxy <-> SimpleJSONRPCDispatcher exchange as a
-          parameter and as a result, for both protocol versions.
+          parameter and as a result, for both protocol versions: a positional call, a keyword call, a notification
+          (parameter only) and a MultiCall batch (parameters and results, also a batched notification), with separate
+          client and server configurations.  Locally registered classes (module `__main__`) are resolvable through
+          Config.classes only (jcenv.Env.install does not make them attributes of the running `__main__`), and the name
+          dump emits for them must be dot-free.
+Domain  : the remote-call clause is checked for values whose enum members have plain JSON values and whose objects with
+          a serialisation method have plain JSON constructor arguments (jcenv.plain_json_args): dump emits an enum
+          value and what a serialisation method returns as they are, so JSON turns a tuple into a list (not a value of
+          the enumeration any more) and refuses a set or a Decimal.  Such values are generated, go through the direct
+          round trip, and their RPC outcome is recorded in the histogram (`rpc-outside-domain/...`), not judged.
 """
 import copy
 import json
@@ -25,7 +34,9 @@ import jsonrpclib.jsonclass as JC
 from jsonrpclib.SimpleJSONRPCServer import SimpleJSONRPCDispatcher
 
 REQUIRED_THEOREMS = [
-    "C07_roundtrip", "C07_local_classes", "C07_gen_loadCalls", "C07_gen_slotsFinder", "C07_gen_typeTables",
+    "C07_roundtrip", "C07_local_classes", "C07_local_resolves", "C07_rpc_param", "C07_rpc_result",
+    "C07_gen_loadCalls", "C07_gen_slotsFinder", "C07_gen_typeTables", "C07_gen_useJsonclassGates",
+    "C07_gen_configCallSites",
 ]
 
 
@@ -105,24 +116,91 @@ def class_table(env, rng, mode):
     return tab
 
 
-def rpc_roundtrip(env, table, version, v):
-    """Sends v as a parameter to an echo method and gets it back as the result.  -> (outcome, received list)"""
+RPC_MODES = ["positional", "keyword", "notify", "multicall"]
+
+
+def rpc_roundtrip(env, table, version, v, mode="positional", server_version=None):
+    """Sends v to an echo method of a real dispatcher through a real ServerProxy (separate client and server
+    configurations, each with the class table) and gets it back.
+    -> ((kind, exception | None), received parameters [..], results [..])"""
     J = impl.jsonrpclib.jsonrpc
-    cfg = impl.jsonrpclib.config.Config(version=version)
+    cfg_c = impl.jsonrpclib.config.Config(version=version)
+    cfg_s = impl.jsonrpclib.config.Config(version=server_version or version)
     for n, c in table.items():
-        cfg.classes.add(c, n)
-    disp = SimpleJSONRPCDispatcher(config=cfg)
+        cfg_c.classes.add(c, n)
+        cfg_s.classes.add(c, n)
+    disp = SimpleJSONRPCDispatcher(config=cfg_s)
     received = []
 
-    def echo(x):
+    def echo(*args, **kwargs):
+        x = kwargs["x"] if kwargs else args[0]
         received.append(x)
         return x
 
     disp.register_function(echo, "echo")
     tr = impl.LoopTransport(lambda body: disp._marshaled_dispatch(body))
-    proxy = J.ServerProxy("http://localhost/", transport=tr, config=cfg, version=version)
-    k, res = impl.outcome(proxy.echo, v)
-    return (k, res), received
+    proxy = J.ServerProxy("http://localhost/", transport=tr, config=cfg_c, version=version)
+    results = []
+
+    def go():
+        if mode == "positional":
+            results.append(proxy.echo(v))
+        elif mode == "keyword":
+            results.append(proxy.echo(x=v))
+        elif mode == "notify":
+            proxy._notify.echo(v)
+        else:
+            mc = J.MultiCall(proxy, config=cfg_c)
+            mc.echo(v)
+            mc._notify.echo(v)
+            mc.echo(x=v)
+            results.extend(list(mc()))
+
+    k, res = impl.outcome(go)
+    return (k, res), received, results
+
+
+def rpc_expected(mode):
+    """(number of parameters the method must have received, number of results the caller must get)"""
+    return {"positional": (1, 1), "keyword": (1, 1), "notify": (1, 0), "multicall": (3, 2)}[mode]
+
+
+def rpc_verdict(env, v, outcome, received, results, mode):
+    """None or a description of the first difference (from the statement: identically as a parameter and as a result)."""
+    k, res = outcome
+    if k == "err":
+        return "raised %s: %s" % (type(res).__name__, res)
+    n_recv, n_res = rpc_expected(mode)
+    if len(received) != n_recv:
+        return "the remote method received %d parameter(s) instead of %d" % (len(received), n_recv)
+    if len(results) != n_res:
+        return "the caller got %d result(s) instead of %d" % (len(results), n_res)
+    for i, x in enumerate(received):
+        m = jcenv.same(v, x, env, "parameter#%d" % i)
+        if m:
+            return m
+    for i, x in enumerate(results):
+        m = jcenv.same(v, x, env, "result#%d" % i)
+        if m:
+            return m
+    return None
+
+
+def local_names_dotfree(d, env, acc=None):
+    """Names dump wrote for classes of `__main__` (locally registered ones) that contain a dot."""
+    acc = [] if acc is None else acc
+    local = set(s["name"] for s in env.specs if s["module"] == "__main__")
+    if isinstance(d, dict):
+        j = d.get("__jsonclass__")
+        if isinstance(j, list) and j and isinstance(j[0], str) and "." in j[0] and j[0].rsplit(".", 1)[1] in local \
+                and j[0].rsplit(".", 1)[0] == "__main__":
+            acc.append(j[0])
+        for x in d.values():
+            local_names_dotfree(x, env, acc)
+    elif isinstance(d, (list, tuple)):
+        for x in d:
+            local_names_dotfree(x, env, acc)
+    return acc
 
 
 def run(ctx):
@@ -131,7 +209,7 @@ def run(ctx):
                 "qualified or locally registered) x instances with random supported values at random positions; each goes "
                 "through dump, load(dump) and (string-keyed ones) a ServerProxy<->dispatcher echo in both protocol versions; "
                 "distinct_nontrivial = distinct (placement of class shapes in the value, outcome class)")
-    n_envs = ctx.budget(24, 240)
+    n_envs = ctx.budget(60, 240)
     per_env = ctx.budget(45, 130)
     lines = []
     expect = []
@@ -176,8 +254,17 @@ def run(ctx):
     ctx.assumptions.append("Python's attribute model (__dict__, __slots__, name mangling), __import__/getattr and "
                            "inspect.getmodule are represented by the class environment handed to the model; the real classes "
                            "are generated from the same description (harness/jcenv.py)")
-    ctx.assumptions.append("C07_rpc_param / C07_rpc_result are not stated in Lean: the RPC path is covered by the monitor "
-                           "(ServerProxy <-> SimpleJSONRPCDispatcher echo, both versions) only")
+    ctx.assumptions.append("C07_rpc_param / C07_rpc_result are stated on the request / response dictionaries (Payload.dump, "
+                           "Payload.load with the class translator); the JSON text in between, MultiCall, keyword calls and "
+                           "notifications are covered by the monitor (ServerProxy <-> SimpleJSONRPCDispatcher, both versions)")
+    ctx.assumptions.append("declared restriction of the domain (shapeOk in C07.lean, jcenv.plain_json_args for the remote-call "
+                           "monitor): enum member values and the constructor arguments / attributes returned by a serialisation "
+                           "method are plain JSON values — dump emits them as they are, so a tuple-valued enum member or a set / "
+                           "Decimal constructor argument survives load(dump()) but not the JSON encoding of a remote call "
+                           "(%d generated values outside this restriction; their RPC outcomes are in the histogram)"
+                           % ctx.extra.get("rpc_outside_domain", 0))
+    ctx.assumptions.append("classes of module __main__ are resolvable through Config.classes only (the running __main__ does not "
+                           "define them), as in a receiving process with its own __main__")
 
 
 def _run_env(ctx, env, custom, names, per_env, lines, expect):
@@ -185,6 +272,7 @@ def _run_env(ctx, env, custom, names, per_env, lines, expect):
     world = env.enc(env.world())
     lean_env = env.enc(env.lean_classes())
     has_local = any(s["module"] == "__main__" for s in env.specs)
+    specs_text = jcenv.specs_enc(env.specs)
     for i in range(per_env):
         vg = jcenv.ValueGen(rng, gen, env)
         top = rng.random()
@@ -232,8 +320,8 @@ def _run_env(ctx, env, custom, names, per_env, lines, expect):
         before = env.enc(v, canon=True)
         vrepr = repr(v)[:300]
         k, d = impl.outcome(JC.dump, v, sm_arg, ia_arg, copy.deepcopy(ig_arg) if ig_arg is not None else None, cfg)
-        case = {"env": env.lean_classes() if False else [s["id"] + ":" + s["kind"] for s in env.specs],
-                "value_enc": vtext, "value": vrepr, "classes": sorted(table), "specs": json.loads(json.dumps(env.specs, default=repr))}
+        case = {"env": [s["id"] + ":" + s["kind"] for s in env.specs],
+                "value_enc": vtext, "value": vrepr, "classes": sorted(table), "specs_enc": specs_text}
         if env.enc(v, canon=True) != before:
             ctx.violate(case, "dump modified its argument", key="dump-mutates")
         try:
@@ -273,20 +361,31 @@ def _run_env(ctx, env, custom, names, per_env, lines, expect):
                     m = jcenv.same(v, r, env)
                     if m:
                         ctx.violate(dict(case, via="direct"), "load(dump(obj)) differs: " + m, key="roundtrip-differs")
+            if in_domain and table:
+                bad = local_names_dotfree(d, env)
+                if bad:
+                    ctx.violate(dict(case, via="direct"), "dump names the locally registered class %r with a module path: the local "
+                                "class table cannot resolve it" % bad[0], key="local-class-qualified")
             # through a remote call, as a parameter and as a result
             if in_domain and string_keys_deep(v, env) and (i % 2 == 0 or ctx.thorough):
+                judged = jcenv.plain_json_args(v, env)
+                if not judged:
+                    ctx.extra["rpc_outside_domain"] = ctx.extra.get("rpc_outside_domain", 0) + 1
+                extra_mode = RPC_MODES[1 + (i // 2) % 3]
                 for version in (1.0, 2.0):
-                    (k3, res), received = rpc_roundtrip(env, table, version, v)
-                    via = "rpc %.1f" % version
-                    if k3 == "err":
-                        ctx.violate(dict(case, via=via, version=version), "remote echo raised %s: %s" % (type(res).__name__, res),
-                                    key="rpc-raises:" + type(res).__name__)
-                    else:
-                        m1 = jcenv.same(v, received[0], env, "parameter") if received else "the method was not called"
-                        m2 = jcenv.same(v, res, env, "result")
-                        if m1 or m2:
-                            ctx.violate(dict(case, via=via, version=version), "remote echo: " + (m1 or m2), key="rpc-differs")
-                    ctx.count(kind="rpc/%s/%s" % (version, k3))
+                    for mode in ("positional", extra_mode):
+                        sv = version if (i // 2) % 4 else (3.0 - version)  # now and then the server speaks the other version
+                        outcome3, received, results = rpc_roundtrip(env, table, version, v, mode, sv)
+                        via = "rpc %.1f %s" % (version, mode)
+                        m = rpc_verdict(env, v, outcome3, received, results, mode)
+                        if not judged:
+                            ctx.hist["rpc-outside-domain/%s/%s" % (mode, "ok" if m is None else m.split(":")[0][:40])] += 1
+                            continue
+                        if m:
+                            ctx.violate(dict(case, via=via, version=version, mode=mode, server_version=sv),
+                                        "remote %s call: %s" % (mode, m),
+                                        key=("rpc-raises:" + type(outcome3[1]).__name__) if outcome3[0] == "err" else "rpc-differs:" + mode)
+                        ctx.count(kind="rpc/%s/%s/%s" % (version, mode, outcome3[0]))
         ctx.count(case_repr={"value": vrepr, "dump": repr(d)[:300]} if i < 2 else None,
                   nontrivial_key=(describe(v, env), outcome) if has_obj(v, env) else None,
                   kind="%s/%s/%s" % ("custom" if custom else ("in-domain" if in_domain else "out-of-domain"),
@@ -296,13 +395,9 @@ def _run_env(ctx, env, custom, names, per_env, lines, expect):
 def replay(payload):
     case = payload.get("case") or {}
     print("replaying: value %s\nclasses table %s via %s" % (case.get("value"), case.get("classes"), case.get("via")))
-    specs = case.get("specs")
-    if not specs:
+    if not case.get("specs_enc"):
         return 0
-    for s in specs:
-        for key in ("own", "members"):
-            if key in s:
-                s[key] = [tuple(x) for x in s[key]]
+    specs = jcenv.specs_dec(case["specs_enc"])
     env = jcenv.Env(specs).install()
     try:
         def mk(cls, fields):
@@ -322,10 +417,11 @@ def replay(payload):
         table = dict((s["name"], env.cls[s["id"]]) for s in env.specs if s["name"] in (case.get("classes") or []))
         via = case.get("via", "direct")
         if via.startswith("rpc"):
-            (k, res), received = rpc_roundtrip(env, table, case.get("version", 2.0), v)
-            print("remote echo ->", k, repr(res)[:300])
-            m = ("raised" if k == "err" else None) or (jcenv.same(v, received[0], env, "parameter") if received else "not called") \
-                or jcenv.same(v, res, env, "result")
+            mode = case.get("mode", "positional")
+            outcome3, received, results = rpc_roundtrip(env, table, case.get("version", 2.0), v, mode, case.get("server_version"))
+            print("remote %s call ->" % mode, outcome3[0], repr(outcome3[1])[:300], "received", repr(received)[:300],
+                  "results", repr(results)[:300])
+            m = rpc_verdict(env, v, outcome3, received, results, mode)
         else:
             k, d = impl.outcome(JC.dump, v)
             print("dump ->", k, repr(d)[:400])
@@ -334,7 +430,9 @@ def replay(payload):
             else:
                 k2, r = impl.outcome(JC.load, d, table)
                 print("load ->", k2, repr(r)[:300])
-                m = "load raised" if k2 == "err" else jcenv.same(v, r, env)
+                m = "load raised" if k2 == "err" else (jcenv.same(v, r, env) or
+                                                        ("local class named %r" % local_names_dotfree(d, env)[0]
+                                                         if table and local_names_dotfree(d, env) else None))
         if m:
             print("VIOLATION reproduced:", m)
             return 1
